@@ -115,6 +115,11 @@ def instances(tier):
                          N("L", "PLoad", "M"), N("L0", "ILoad", "S1")), {"M": "vd"})
     sh["mux-below-rails"] = (S(N("S", "Source", rail="IN"), N("C", "Converter", "S", rail="R1"), N("G", "LinReg", "S", rail="R2"),
                                N("M", "PMux", ["C", "G"], rs_list=True), N("L", "RLoad", "M"), N("L1", "ILoad", "C")), {})
+    # the mux inputs (and every other parent) are DECLARED by rail name, the documented add_comp(["Vbatt", "USB_5V"], ...) form
+    sh["mux-rails-declared-by-rail"] = (S(N("S1", "Source", pol="nonneg", rail="BAT"), N("S2", "Source", rail="USB"), N("M", "PMux", ["S1", "S2"], rs_list=True, rail="SYS"),
+                                          N("L", "PLoad", "M"), N("L0", "ILoad", "S1"), address_by_rail=True), {"M": "vd"})
+    sh["mux-below-rails-declared-by-rail"] = (S(N("S", "Source", rail="IN"), N("C", "Converter", "S", rail="R1"), N("G", "LinReg", "S", rail="R2"),
+                                                N("M", "PMux", ["C", "G"], rs_list=True), N("L", "RLoad", "M"), N("L1", "ILoad", "C"), address_by_rail=True), {})
     sh["no-rails"] = (S(N("S", "Source"), N("C", "Converter", "S"), N("L", "PLoad", "C")), {"L": "vi"})
     for sid, (shape, w) in sh.items():
         out.append(Instance("C08", "c08:s_rails", dict(shape=shape, warns=w), name="S/" + sid, uf=True, cover=["solved"], weight=20))
